@@ -263,6 +263,11 @@ func genTree(r *rng, hl int, mode int, keepRoot bool) *wgTree {
 		g.snap = w.snapshotEntries()
 	}
 	t.snap = g.snap
+	if keepRoot { // also when reached through a symbolic link to "/"
+		if ri, err := w.base.Lstat("/"); err != nil || ri.Mode().Perm() != 0o755 || w.base.ToSysStat(ri).Uid() != 0 {
+			return nil
+		}
+	}
 	// the acting identity and the working directory of the queries
 	u := fsUsers[r.intn(len(fsUsers))]
 	if mode == 0 {
@@ -433,10 +438,16 @@ func wrapKind(kind string, v avfs.VFS, bp string) wgOps {
 // canonical build operations (MemFS model side) of the directory/file part of a tree, and the same tree on OrefaFS
 func orefaBuild(snap []snapEntry, ofs avfs.VFS) []string {
 	var ops []string
+	for _, d := range []string{"/home", "/root", "/tmp"} { // start from the bare root on both sides
+		ops = append(ops, "RM 0 "+tok(d))
+		if err := ofs.Remove(d); err != nil {
+			panic(err)
+		}
+	}
 	for _, e := range snap {
 		switch e.kind {
 		case 'D':
-			if e.path == "/" || e.path == "/home" || e.path == "/root" || e.path == "/tmp" {
+			if e.path == "/" {
 				continue
 			}
 			ops = append(ops, fmt.Sprintf("MA 0 %s 493", tok(e.path)))
@@ -505,6 +516,8 @@ func buildWorld(hd []string, ops []string) (wgOps, *fsWorld, bool) {
 		for _, op := range ops {
 			t := strings.Fields(op)
 			switch t[0] {
+			case "RM":
+				ofs.Remove(untok(t[2]))
 			case "MA":
 				ofs.MkdirAll(untok(t[2]), fs.FileMode(atoi64(t[3])))
 			case "WF":
@@ -582,6 +595,9 @@ func runWalkGlob(cfg config) {
 				if e.kind == 'D' && e.path != "/" {
 					dirs = append(dirs, e.path)
 				}
+			}
+			if len(dirs) == 0 {
+				continue
 			}
 			bp := dirs[r.intn(len(dirs))]
 			if _, err := t.w.views[0].Stat(bp); err != nil { // the acting identity cannot reach it
